@@ -26,6 +26,35 @@ def classify_ret(r):
     return "val"
 
 
+def effective_ret(p):
+    """the returned value with the path's member stores into a returned local pair applied (bRet.second = true; return bRet;)"""
+    r = p.ret
+    if isinstance(r, tuple) and r and r[0] == "pair" and len(r) == 3:
+        a, b = r[1], r[2]
+        for e in p.events:
+            if e.kind == "store" and isinstance(e.obj, tuple) and e.obj[:1] == ("fld",) and e.obj[1] == r:
+                if e.obj[2] == "first":
+                    a = e.val
+                elif e.obj[2] == "second":
+                    b = e.val
+        return ("pair", a, b)
+    return r
+
+
+def uncertain_null(p):
+    """the path returns null only because a symbolic pointer (not a literal, not a boolean call result) tested false in the deciding branch: the
+    engine cannot tell whether that pointer can be null there (e.g. 'return pDel ? to_value_ptr( pDel ) : nullptr' after pDel = pos.pCur)"""
+    if p.ret != NULL:
+        return False
+    atoms = cond_atoms(p)
+    if not atoms:
+        return False
+    atom, tv, bev = atoms[-1]
+    if tv is not False:
+        return False
+    return isinstance(atom, tuple) and atom[:1] in (("fld",), ("elem",), ("phi",), ("p",), ("init",))
+
+
 def counter_ops(p):
     return ["++" if ("++" in e.q or e.q.endswith("inc")) else "--" for e in p.events if e.kind == "call" and e.q and CNT.search(e.q)]
 
@@ -73,7 +102,7 @@ def rule_counter_return(ctx, rid, file_re, bound=3000, reason=""):
         families.add(F.cls)
         ctx.paths += len(ps)
         rets = [p for p in ps if p.outcome == "return"]
-        kinds = set(classify_ret(p.ret) for p in rets)
+        kinds = set(classify_ret(effective_ret(p)) for p in rets)
         has_inc = any("++" in counter_ops(p) for p in rets) or (flagged and F.kind != "lambda")
         has_dec = any("--" in counter_ops(p) for p in rets)
         name = F.q.split("::")[-1]
@@ -88,7 +117,9 @@ def rule_counter_return(ctx, rid, file_re, bound=3000, reason=""):
                         param_gate.add((atom, tv))
         for p in rets:
             ops = counter_ops(p)
-            rk = classify_ret(p.ret)
+            if ops and uncertain_null(p):
+                continue
+            rk = classify_ret(effective_ret(p))
             gated_off = any((atom, not tv) in param_gate for atom, tv, bev in cond_atoms(p) if isinstance(atom, tuple) and atom and atom[0] == "p")
             node = p.events[-1].node if p.events else None
             if len(ops) > 1:
@@ -227,6 +258,8 @@ def rule_counter_reachability(ctx, rid, file_re, reason=""):
         if F is None or depth > 5:
             return set()
         res = set(ops.get(m, ()))
+        if any(e.get("k") == "call" and re.search(r"item_counter::reset$", e.get("q") or "") for _, _, e in F.all_elements()):
+            res.add("reset")       # clear() implemented by resetting the counter is a counter change as well
         for _, _, e in F.all_elements():
             if e.get("k") in ("call", "ctor", "lambda") and e.get("m") in by_m and e["m"] != m and owner(by_m[e["m"]].q) == own:
                 res |= closure_same(e["m"], own, depth + 1)
@@ -234,6 +267,8 @@ def rule_counter_reachability(ctx, rid, file_re, reason=""):
         return res
     groups = {}
     for F in funcs:
+        if F.kind in ("ctor", "dtor"):
+            continue      # what a destructor does to the counter of the dying object is immaterial (nogc variants reset it through clear())
         groups.setdefault(F.q, {}).setdefault(F.file, []).append(F)
     for q, byfile in groups.items():
         if len(byfile) < 2:
